@@ -14,6 +14,7 @@
     clippy::await_holding_refcell_ref
 )]
 #![cfg_attr(test, allow(clippy::unwrap_used))]
+#![cfg_attr(mainline_verif, allow(missing_docs, private_interfaces))]
 
 /// Single threaded Actor model node
 mod actor;
@@ -21,6 +22,9 @@ mod common;
 /// Functional core testable separately from I/O
 mod core;
 mod dht;
+/// Verification seams; only compiled with `--cfg mainline_verif`.
+#[cfg(mainline_verif)]
+pub mod verif;
 
 #[cfg(feature = "async")]
 pub use dht::async_dht;
